@@ -326,15 +326,20 @@ func (p *Parser) parseBuffer(buf []byte, last bool) (err error) {
 			p.mode = ccommentMap
 			continue
 		case openObject:
-			if 256 < len(p.mode) {
-				switch p.mode[256] {
-				case 'n':
+			if 256 < len(p.mode) && (p.mode[256] == 'n' || p.mode[256] == 't') {
+				// A number or token ends here. Add it and then look at
+				// the open again so that a top level value is handed
+				// off, and a key is followed by a colon, just as when
+				// a separator is between the two.
+				if p.mode[256] == 'n' {
 					if err = p.add(p.num.AsNum(), off); err != nil {
 						return
 					}
-				case 't':
+				} else {
 					p.addToken(off)
 				}
+				off--
+				break
 			}
 			p.starts = append(p.starts, -1)
 			var m map[string]any
@@ -451,15 +456,20 @@ func (p *Parser) parseBuffer(buf []byte, last bool) (err error) {
 			p.ri = 0
 			continue
 		case openArray:
-			if 256 < len(p.mode) {
-				switch p.mode[256] {
-				case 'n':
+			if 256 < len(p.mode) && (p.mode[256] == 'n' || p.mode[256] == 't') {
+				// A number or token ends here. Add it and then look at
+				// the open again so that a top level value is handed
+				// off, and a key is followed by a colon, just as when
+				// a separator is between the two.
+				if p.mode[256] == 'n' {
 					if err = p.add(p.num.AsNum(), off); err != nil {
 						return
 					}
-				case 't':
+				} else {
 					p.addToken(off)
 				}
+				off--
+				break
 			}
 			p.starts = append(p.starts, len(p.stack))
 			p.stack = append(p.stack, emptySlice)
